@@ -244,6 +244,18 @@ func runC12(r *fw.Run) {
 		}
 		if c.Builtin == "" && k%3 != 0 {
 			c.Params = jg.Object(2, 0)
+			switch k % 23 {
+			case 1:
+				c.Params = `[1,"two",{"three":3}]`
+			case 2:
+				c.Params = `"a string as parameters"`
+			case 4:
+				c.Params = `12345678901234567890`
+			case 5:
+				c.Params = `{"big":` + jg.BigString(200000) + `}`
+			case 7:
+				c.Params = `{}`
+			}
 		}
 		if !validUTF8(c.Name) {
 			continue
